@@ -1,5 +1,5 @@
 (* Proofs/SecP.v — lemmas about Model/Sec.v (C10). *)
-From PV Require Import Base.Bytes Base.Outcome Model.Sec.
+From PV Require Import Base.Bytes Base.Outcome Model.Sec Gen.GenCurveC10.
 From Coq Require Import ZifyBool ZifyNat ZifyN Znumtheory Zpow_facts.
 Local Open Scope Z_scope.
 
@@ -45,6 +45,15 @@ Proof. intros Hm H. apply Z.mod_divide; [assumption|]. apply mod_eq_divide; assu
 Lemma land1 v : Z.land v 1 = v mod 2.
 Proof. change 1 with (Z.ones 1). rewrite Z.land_ones by lia. reflexivity. Qed.
 
+Lemma small_multiple z k p : 0 < p -> z = k * p -> - p < z < p -> z = 0.
+Proof.
+  intros Hp Hz Hr. assert (k = 0); [|subst; lia].
+  destruct (Z_lt_le_dec k 0) as [Hn|Hn].
+  - assert (k * p <= (-1) * p) by (apply Z.mul_le_mono_nonneg_r; lia). lia.
+  - destruct (Z.eq_dec k 0) as [|Hk]; [assumption|].
+    assert (1 * p <= k * p) by (apply Z.mul_le_mono_nonneg_r; lia). lia.
+Qed.
+
 (* ---- square roots mod p = 3 (mod 4) ------------------------------------------------------- *)
 (* premises: p prime; the Fermat instance for y (M3 of DESIGN.md section 3) *)
 Lemma sqrt_3mod4 p y :
@@ -72,8 +81,8 @@ Proof.
   { replace ((y0 - y) * (y0 + y)) with (y0 * y0 - y * y) by ring.
     apply mod_eq_divide; [lia|assumption]. }
   destruct (prime_mult p Hprime _ _ Hdiv) as [[k Hk]|[k Hk]].
-  - left. assert (k = 0) by nia. lia.
-  - right. assert (k = 1) by nia. lia.
+  - left. assert (y0 - y = 0) by (apply (small_multiple _ k p); lia). lia.
+  - right. assert (y0 + y - p = 0) by (apply (small_multiple _ (k - 1) p); lia). lia.
 Qed.
 
 Section Curve.
@@ -157,7 +166,7 @@ Proof.
     pose proof (Z.div_mod (p - y0) 2 ltac:(lia)).
     pose proof (Z.mod_pos_bound y0 2 ltac:(lia)). pose proof (Z.mod_pos_bound (p - y0) 2 ltac:(lia)). lia. }
   pose proof (Z.mod_pos_bound y0 2 ltac:(lia)).
-  destruct (y0 mod 2 =? 0) eqn:Epar; intros H; injection H as <- <-;
+  destruct (y0 mod 2 =? 0) eqn:Epar; intros HR; injection HR as <- <-;
     exists y0; rewrite !land1; (split; [lia|]); (split; [assumption|]); (split; [assumption|]).
   - left. repeat split; lia.
   - right. repeat split; lia.
@@ -203,8 +212,10 @@ Qed.
 Lemma slice_second (c : byte) (xs ys : bytes) n : length xs = n -> length ys = n ->
   slice (1 + n) (1 + 2 * n) (c :: xs ++ ys) = ys.
 Proof.
-  intros H1 H2. unfold slice. cbn [Nat.add skipn]. rewrite <- H1 at 1. rewrite skipn_app_exact.
-  replace (S (2 * n) - S n)%nat with (length ys) by lia. apply firstn_all.
+  intros <- H2. unfold slice.
+  replace (skipn (1 + length xs) (c :: xs ++ ys)) with ys
+    by (cbn [Nat.add skipn]; symmetry; apply skipn_app_exact).
+  replace (1 + 2 * length xs - (1 + length xs))%nat with (length ys) by lia. apply firstn_all.
 Qed.
 
 Lemma bit_length_byte_count p : 2 ^ 248 <= p < 2 ^ 256 -> byte_count p = 32%nat.
@@ -216,4 +227,281 @@ Proof.
   { pose proof (Z.div_mod (Z.log2 p + 1 + 7) 8 ltac:(lia)).
     pose proof (Z.mod_pos_bound (Z.log2 p + 1 + 7) 8 ltac:(lia)). lia. }
   rewrite A. reflexivity.
+Qed.
+
+(* ---- SEC round trip ------------------------------------------------------------------------ *)
+Section RoundTrip.
+Variables p a b : Z.
+Hypothesis Hbc : byte_count p = 32%nat.
+Hypothesis Hp : 0 < p.
+
+Lemma sec_uncompressed_roundtrip x y strict :
+  0 <= x < p -> 0 <= y < p -> p <= 2 ^ 256 ->
+  exists sec, public_pair_to_sec (x, y) false = Ret sec /\ length sec = 65%nat /\
+    sec_to_public_pair p a b sec strict = Ret (x, y).
+Proof.
+  intros Hx Hy Hp256. unfold public_pair_to_sec.
+  rewrite !to_bytes_32_ok by lia. cbn [bind].
+  set (xs := be_encode 32 (Z.to_N x)). set (ys := be_encode 32 (Z.to_N y)).
+  assert (Lx : length xs = 32%nat) by apply be_encode_length.
+  assert (Ly : length ys = 32%nat) by apply be_encode_length.
+  eexists; split; [reflexivity|]. split; [cbn [length]; rewrite app_length; lia|].
+  unfold sec_to_public_pair. rewrite Hbc.
+  rewrite (slice_first x04 xs ys 32 Lx), (slice_second x04 xs ys 32 Lx Ly).
+  unfold xs, ys. rewrite !from_to_bytes_32 by lia.
+  destruct (p <=? x) eqn:E1; [lia|]. destruct (p <=? y) eqn:E2; [lia|].
+  fold xs ys. cbn [length]. rewrite app_length, Lx, Ly. reflexivity.
+Qed.
+
+Lemma sec_compressed_roundtrip x y strict :
+  prime p -> p mod 4 = 3 -> (y ^ (p - 1)) mod p = 1 ->
+  0 <= x < p -> 0 < y < p -> p <= 2 ^ 256 -> contains_point p a b x y = true ->
+  exists sec, public_pair_to_sec (x, y) true = Ret sec /\ length sec = 33%nat /\
+    sec_to_public_pair p a b sec strict = Ret (x, y).
+Proof.
+  intros Hprime H34 Hf Hx Hy Hp256 Hc. unfold public_pair_to_sec.
+  rewrite to_bytes_32_ok by lia. cbn [bind].
+  set (xs := be_encode 32 (Z.to_N x)).
+  assert (Lx : length xs = 32%nat) by apply be_encode_length.
+  eexists; split; [reflexivity|]. split; [cbn [length]; lia|].
+  unfold sec_to_public_pair. rewrite Hbc.
+  assert (Esl : forall c, from_bytes_32 (slice 1 (1 + 32) (c :: xs)) = x).
+  { intros c. rewrite <- (app_nil_r xs). rewrite (slice_first _ xs [] 32 Lx).
+    unfold xs. apply from_to_bytes_32. lia. }
+  rewrite !Esl.
+  destruct (p <=? x) eqn:E1; [lia|].
+  cbn [length]. rewrite Lx. cbn [Nat.eqb Nat.add Nat.mul].
+  destruct (points_for_x_of_point p a b Hp x y Hprime H34 Hf Hy Hc) as (p0 & p1 & Epts & Esel).
+  rewrite Epts. cbn [bind].
+  rewrite land1 in *. pose proof (Z.mod_pos_bound y 2 ltac:(lia)) as Hm.
+  assert (Hcase : y mod 2 = 0 \/ y mod 2 = 1) by lia.
+  destruct Hcase as [E|E]; rewrite E in *.
+  - change (z2b (2 + 0)) with x02. cbn [sec0_is]. rewrite byte_eqb_refl. cbn [orb negb].
+    cbn [Z.eqb] in Esel. rewrite Esel. reflexivity.
+  - change (z2b (2 + 1)) with x03. cbn [sec0_is].
+    change (byte_eqb x03 x02) with false. rewrite byte_eqb_refl. cbn [orb negb].
+    cbn [Z.eqb] in Esel. rewrite Esel. reflexivity.
+Qed.
+
+(* ---- only canonical encodings are accepted (no primality needed) --------------------------- *)
+Lemma sec_strict_accepts_only_canonical sec x y :
+  p mod 2 = 1 ->
+  sec_to_public_pair p a b sec true = Ret (x, y) ->
+  0 <= x < p /\ 0 <= y < p /\
+  public_pair_to_sec (x, y) (is_sec_compressed sec) = Ret sec /\
+  ((length sec = 65%nat /\ sec0_is sec x04 = true /\ is_sec_compressed sec = false) \/
+   (length sec = 33%nat /\ is_sec_compressed sec = true /\ 0 < y /\ contains_point p a b x y = true)).
+Proof.
+  intros Hodd. unfold sec_to_public_pair. rewrite Hbc.
+  set (xv := from_bytes_32 (slice 1 (1 + 32) sec)).
+  destruct (p <=? xv) eqn:Ex; [discriminate|].
+  destruct (length sec =? 1 + 32 * 2)%nat eqn:L65.
+  - (* uncompressed *)
+    cbn [negb andb]. rewrite orb_false_r.
+    destruct (sec0_is sec x04) eqn:E4; [|discriminate].
+    set (yv := from_bytes_32 (slice (1 + 32) (1 + 2 * 32) sec)).
+    destruct (p <=? yv) eqn:Ey; [discriminate|]. cbn [negb andb].
+    intros H; injection H as <- <-.
+    destruct sec as [|s0 rest]; [discriminate|]. cbn [sec0_is] in E4. apply byte_eqb_eq in E4. subst s0.
+    apply Nat.eqb_eq in L65. cbn [length] in L65.
+    assert (Lr : length rest = 64%nat) by lia.
+    set (xs := firstn 32 rest). set (ys := skipn 32 rest).
+    assert (Er : rest = xs ++ ys) by (symmetry; apply firstn_skipn).
+    assert (Lx : length xs = 32%nat) by (unfold xs; rewrite firstn_length; lia).
+    assert (Ly : length ys = 32%nat) by (unfold ys; rewrite skipn_length; lia).
+    assert (Exv : xv = from_bytes_32 xs) by (unfold xv; rewrite Er; rewrite (slice_first _ xs ys 32 Lx); reflexivity).
+    assert (Eyv : yv = from_bytes_32 ys) by (unfold yv; rewrite Er; rewrite (slice_second _ xs ys 32 Lx Ly); reflexivity).
+    pose proof (from_bytes_32_range xs Lx). pose proof (from_bytes_32_range ys Ly).
+    assert (Hcomp : is_sec_compressed (x04 :: rest) = false) by reflexivity.
+    split; [lia|]. split; [lia|]. split.
+    + rewrite Hcomp. unfold public_pair_to_sec. rewrite Exv, Eyv.
+      rewrite !to_from_bytes_32 by assumption. cbn [bind]. rewrite Er. reflexivity.
+    + left. repeat split; try reflexivity. cbn [length]. lia.
+  - destruct (length sec =? 1 + 32)%nat eqn:L33; [|discriminate].
+    destruct (sec0_is sec x02 || sec0_is sec x03) eqn:E23; [|discriminate].
+    destruct (points_for_x p a b xv) as [[p0 p1]| |] eqn:Epts; try discriminate.
+    cbn [bind].
+    destruct (points_for_x_sound p a b Hp xv p0 p1 Hodd Epts) as (y0 & Hy0 & C1 & C2 & Hsel).
+    destruct sec as [|s0 rest]; [discriminate|].
+    apply Nat.eqb_eq in L33. cbn [length] in L33. assert (Lr : length rest = 32%nat) by lia.
+    assert (Exv : xv = from_bytes_32 rest).
+    { unfold xv. rewrite <- (app_nil_r rest) at 1. rewrite (slice_first _ rest [] 32 Lr). reflexivity. }
+    pose proof (from_bytes_32_range rest Lr).
+    assert (Hcomp : is_sec_compressed (s0 :: rest) = true) by exact E23.
+    rewrite Hcomp. cbn [sec0_is] in *.
+    unfold public_pair_to_sec. rewrite Exv in *.
+    assert (Hfin : forall yy pfx, 0 < yy < p -> contains_point p a b (from_bytes_32 rest) yy = true ->
+              z2b (2 + Z.land yy 1) = pfx ->
+      0 <= from_bytes_32 rest < p /\ 0 <= yy < p /\
+      bind (to_bytes_32 (from_bytes_32 rest)) (fun x_str : bytes => Ret (z2b (2 + Z.land yy 1) :: x_str))
+        = Ret (pfx :: rest) /\
+      (length (pfx :: rest) = 65%nat /\ byte_eqb pfx x04 = true /\ true = false \/
+       length (pfx :: rest) = 33%nat /\ true = true /\ 0 < yy /\
+       contains_point p a b (from_bytes_32 rest) yy = true)).
+    { intros yy pfx Hyy Hcc Hpf. split; [lia|]. split; [lia|]. split.
+      - rewrite to_from_bytes_32 by assumption. cbn [bind]. rewrite Hpf. reflexivity.
+      - right. cbn [length]. repeat split; try lia; assumption. }
+    destruct (byte_eqb s0 x02) eqn:E2.
+    + apply byte_eqb_eq in E2. subst s0. cbn [negb].
+      destruct Hsel as [(Hl & -> & _ & _)|(Hl & -> & _ & Hl')]; injection 1 as <- <-.
+      * apply Hfin; [lia|assumption|rewrite Hl; reflexivity].
+      * apply Hfin; [lia|assumption|rewrite Hl'; reflexivity].
+    + cbn [orb] in E23. apply byte_eqb_eq in E23. subst s0. cbn [negb].
+      destruct Hsel as [(Hl & _ & -> & Hl')|(Hl & _ & -> & _)]; injection 1 as <- <-.
+      * apply Hfin; [lia|assumption|rewrite Hl'; reflexivity].
+      * apply Hfin; [lia|assumption|rewrite Hl; reflexivity].
+Qed.
+
+End RoundTrip.
+
+(* ---- Key.from_sec / Key.__init__ ------------------------------------------------------------ *)
+Lemma public_pair_to_sec_flag pr c sec : public_pair_to_sec pr c = Ret sec -> is_sec_compressed sec = c.
+Proof.
+  destruct pr as [x y]. unfold public_pair_to_sec.
+  destruct (to_bytes_32 x) as [xs| |]; try discriminate. cbn [bind].
+  destruct c.
+  - intros H; injection H as <-. rewrite land1.
+    pose proof (Z.mod_pos_bound y 2 ltac:(lia)).
+    assert (Hc : y mod 2 = 0 \/ y mod 2 = 1) by lia. destruct Hc as [-> | ->]; reflexivity.
+  - destruct (to_bytes_32 y) as [ys| |]; try discriminate. cbn [bind].
+    intros H; injection H as <-. reflexivity.
+Qed.
+
+Lemma key_public_iff p a b x y :
+  (contains_point p a b x y = true -> key_public p a b (x, y) = Ret (x, y)) /\
+  (contains_point p a b x y = false -> key_public p a b (x, y) = Raise E_PUBPAIR).
+Proof. unfold key_public. split; intros ->; reflexivity. Qed.
+
+Lemma key_private_iff order e :
+  (1 <= e < order -> key_private order e = Ret e) /\
+  (~ (1 <= e < order) -> key_private order e = Raise E_SECRET).
+Proof.
+  unfold key_private. split; intros H.
+  - destruct (e <? 1) eqn:E1; [lia|]. destruct (order <=? e) eqn:E2; [lia|]. reflexivity.
+  - destruct (e <? 1) eqn:E1; [reflexivity|]. destruct (order <=? e) eqn:E2; [reflexivity|lia].
+Qed.
+
+Section KeyFromSec.
+Variables p a b : Z.
+Hypothesis Hbc : byte_count p = 32%nat.
+Hypothesis Hp : 0 < p.
+Hypothesis Hp256 : p <= 2 ^ 256.
+
+Lemma key_from_sec_roundtrip x y (c : bool) :
+  prime p -> p mod 4 = 3 -> (y ^ (p - 1)) mod p = 1 ->
+  0 <= x < p -> 0 < y < p -> contains_point p a b x y = true ->
+  exists sec, public_pair_to_sec (x, y) c = Ret sec /\
+    length sec = (if c then 33 else 65)%nat /\
+    key_from_sec p a b sec = Ret ((x, y), c).
+Proof.
+  intros Hprime H34 Hf Hx Hy Hc.
+  assert (Hsec : exists sec, public_pair_to_sec (x, y) c = Ret sec /\ length sec = (if c then 33 else 65)%nat /\
+                   sec_to_public_pair p a b sec true = Ret (x, y)).
+  { destruct c.
+    - apply sec_compressed_roundtrip; assumption.
+    - apply sec_uncompressed_roundtrip; try assumption; lia. }
+  destruct Hsec as (sec & Eenc & Hlen & Edec). exists sec. repeat split; try assumption.
+  unfold key_from_sec. rewrite Edec. cbn [bind]. unfold key_public. rewrite Hc. cbn [bind].
+  rewrite (public_pair_to_sec_flag _ _ _ Eenc). reflexivity.
+Qed.
+
+Lemma key_from_sec_accepts_only_canonical sec x y c :
+  p mod 2 = 1 ->
+  key_from_sec p a b sec = Ret ((x, y), c) ->
+  0 <= x < p /\ 0 <= y < p /\ contains_point p a b x y = true /\
+  public_pair_to_sec (x, y) c = Ret sec /\
+  ((c = false /\ length sec = 65%nat /\ sec0_is sec x04 = true) \/
+   (c = true /\ length sec = 33%nat /\ (sec0_is sec x02 = true \/ sec0_is sec x03 = true) /\ 0 < y)).
+Proof.
+  intros Hodd. unfold key_from_sec.
+  destruct (sec_to_public_pair p a b sec true) as [[x' y']| |] eqn:E; try discriminate.
+  cbn [bind]. unfold key_public.
+  destruct (contains_point p a b x' y') eqn:Ec; [|discriminate]. cbn [bind].
+  intros H; injection H as <- <- <-.
+  destruct (sec_strict_accepts_only_canonical p a b Hbc Hp sec x' y' Hodd E) as (Hx & Hy & Henc & Hshape).
+  repeat (split; [assumption|]).
+  destruct Hshape as [(L & H4 & Hc)|(L & Hc & Hy0 & _)]; rewrite Hc.
+  - left. repeat split; assumption.
+  - right. repeat split; try assumption. unfold is_sec_compressed in Hc.
+    apply orb_true_iff in Hc. exact Hc.
+Qed.
+
+(* two accepted blobs that decode to the same key are the same blob *)
+Lemma key_from_sec_injective sec1 sec2 k :
+  p mod 2 = 1 -> key_from_sec p a b sec1 = Ret k -> key_from_sec p a b sec2 = Ret k -> sec1 = sec2.
+Proof.
+  intros Hodd H1 H2. destruct k as [[x y] c].
+  destruct (key_from_sec_accepts_only_canonical _ _ _ _ Hodd H1) as (_ & _ & _ & E1 & _).
+  destruct (key_from_sec_accepts_only_canonical _ _ _ _ Hodd H2) as (_ & _ & _ & E2 & _).
+  rewrite E1 in E2. injection E2. auto.
+Qed.
+End KeyFromSec.
+
+(* ---- the generated secp256k1 constants meet the side conditions ------------------------------ *)
+Lemma k1_width : bytes32_width = 32%nat.
+Proof. reflexivity. Qed.
+Lemma k1_p_range : 2 ^ 248 <= k1_p < 2 ^ 256.
+Proof. split; [apply Z.leb_le|apply Z.ltb_lt]; vm_compute; reflexivity. Qed.
+Lemma k1_byte_count : byte_count k1_p = 32%nat.
+Proof. apply bit_length_byte_count. exact k1_p_range. Qed.
+Lemma k1_mod4 : k1_p mod 4 = 3.
+Proof. vm_compute. reflexivity. Qed.
+Lemma k1_n_range : 1 < k1_n < 2 ^ 256.
+Proof. split; apply Z.ltb_lt; vm_compute; reflexivity. Qed.
+Lemma k1_g_on_curve : contains_point k1_p k1_a k1_b k1_gx k1_gy = true.
+Proof. vm_compute. reflexivity. Qed.
+Lemma k1_g_range : 0 <= k1_gx < k1_p /\ 0 < k1_gy < k1_p.
+Proof. repeat split; try (apply Z.ltb_lt; vm_compute; reflexivity). apply Z.leb_le; vm_compute; reflexivity. Qed.
+Lemma k1_g_fermat : (k1_gy ^ (k1_p - 1)) mod k1_p = 1.
+Proof. rewrite <- pymodpow_spec; [vm_compute; reflexivity| |]; [apply Z.leb_le|apply Z.ltb_lt]; vm_compute; reflexivity. Qed.
+
+(* under the Fermat premise no point of secp256k1 has y = 0: -7 is not a cube mod p *)
+Lemma k1_no_y0 :
+  (forall t, 0 < t < k1_p -> (t ^ (k1_p - 1)) mod k1_p = 1) ->
+  forall x, 0 <= x < k1_p -> contains_point k1_p k1_a k1_b x 0 = false.
+Proof.
+  intros Hf x Hx. destruct (contains_point k1_p k1_a k1_b x 0) eqn:E; [exfalso|reflexivity].
+  pose proof k1_p_range as Hpr. assert (Hp : 0 < k1_p) by lia.
+  apply (contains_point_iff k1_p k1_a k1_b Hp) in E.
+  change k1_a with 0 in E. change k1_b with 7 in E.
+  replace (0 * 0) with 0 in E by ring. rewrite Z.mod_0_l in E by lia.
+  assert (Hx0 : x <> 0).
+  { intros ->. revert E. vm_compute. discriminate. }
+  assert (Hcube : (x ^ 3) mod k1_p = (-7) mod k1_p).
+  { apply sub_mod_0; [lia|]. replace (x ^ 3 - -7) with (x * x * x + 0 * x + 7) by ring. auto. }
+  set (k := (k1_p - 1) / 3).
+  assert (Hk : k1_p - 1 = 3 * k) by (unfold k; vm_compute; reflexivity).
+  assert (Hk0 : 0 <= k) by (apply Z.leb_le; vm_compute; reflexivity).
+  pose proof (Hf x ltac:(lia)) as H1.
+  rewrite Hk, Z.pow_mul_r in H1 by lia.
+  rewrite Zpower_mod in H1 by lia. rewrite Hcube in H1. rewrite <- Zpower_mod in H1 by lia.
+  rewrite <- pymodpow_spec in H1 by lia.
+  revert H1. unfold k. vm_compute. discriminate.
+Qed.
+
+(* ---- a toy field where the number-theoretic premises are PROVED (non-vacuity) ------------------- *)
+Lemma forall_range (P : Z -> bool) n :
+  forallb P (map Z.of_nat (seq 1 n)) = true -> forall t, 1 <= t <= Z.of_nat n -> P t = true.
+Proof.
+  intros H t Ht. rewrite forallb_forall in H. apply H.
+  rewrite <- (Z2Nat.id t) by lia. apply in_map. apply in_seq. lia.
+Qed.
+
+Lemma prime_251 : prime 251.
+Proof.
+  apply prime_intro; [lia|]. intros n Hn. apply Zgcd_1_rel_prime.
+  apply Z.eqb_eq. apply (forall_range (fun n => Z.gcd n 251 =? 1) 250); [vm_compute; reflexivity|lia].
+Qed.
+
+Lemma fermat_251 t : 0 < t < 251 -> (t ^ (251 - 1)) mod 251 = 1.
+Proof.
+  intros Ht. rewrite <- pymodpow_spec by lia. apply Z.eqb_eq.
+  apply (forall_range (fun t => pymodpow t (251 - 1) 251 =? 1) 250); [vm_compute; reflexivity|lia].
+Qed.
+
+Lemma toy_points_for_x x y : 0 < y < 251 -> contains_point 251 0 7 x y = true ->
+  exists p0 p1, points_for_x 251 0 7 x = Ret (p0, p1) /\ (if Z.land y 1 =? 0 then p0 else p1) = (x, y).
+Proof.
+  intros Hy Hc.
+  exact (points_for_x_of_point 251 0 7 ltac:(lia) x y prime_251 eq_refl (fermat_251 y Hy) Hy Hc).
 Qed.
